@@ -254,6 +254,8 @@ fn e2e_shard(ctx: &Ctx, shard: usize, scripts: u64) -> Acc {
         if script.string.contains('"') {
             acc.quotes_in_strings += 1;
         }
+        // the response of every query as `run` wrote it (reference for the process delivery below)
+        let mut reference: Vec<(&'static str, Vec<u8>)> = Vec::new();
         for (q, leaves_of) in &queries {
             let leaves = leaves_of(&script);
             let input: Vec<u8> = format!("{}\n", q).into_bytes();
@@ -303,6 +305,9 @@ fn e2e_shard(ctx: &Ctx, shard: usize, scripts: u64) -> Acc {
                         vec![("query", J::s(*q)), ("writer", J::s(*wname)), ("output", J::s(esc(&s.out))), ("output_hex", J::s(hex(&s.out[..s.out.len().min(300)]))), ("returned", J::s(format!("{:?}", leaves))), ("log", J::strs(out.log.iter().take(20).map(|e| e.show())))],
                     );
                 }
+                if *wname == "pass-through" {
+                    reference.push((*q, s.out.clone()));
+                }
                 outs.push((wname, s.out));
             }
             // same bytes for every writer
@@ -317,6 +322,60 @@ fn e2e_shard(ctx: &Ctx, shard: usize, scripts: u64) -> Acc {
                 }
             }
             par::case_end();
+        }
+        // the same queries as a stream of messages through `process` (several messages per read,
+        // answers together longer than the response buffer although each one fits): exactly the
+        // same responses, in order, reach the adapter
+        if reference.len() == queries.len() {
+            let mut order: Vec<usize> = (0..reference.len()).collect();
+            for i in (1..order.len()).rev() {
+                order.swap(i, rng.below(i + 1));
+            }
+            for (dname, n, max_per, chunked) in [
+                ("process/one-read-per-buffer", 256usize, 1usize, false),
+                ("process/one-read-per-buffer", 1024, 3, false),
+                ("process/random-chunks", 256, 1, true),
+            ] {
+                // only answers that have room: all answers of one message fit the response buffer
+                let order: Vec<usize> = order.iter().copied().filter(|i| reference[*i].1.len() <= n / max_per).collect();
+                let mut stream = Vec::new();
+                let mut want = Vec::new();
+                let mut k = 0;
+                while k < order.len() {
+                    // one to three queries per message (the answers of one message always fit)
+                    let per = rng.range(1, max_per).min(order.len() - k);
+                    for j in 0..per {
+                        if j > 0 {
+                            stream.extend_from_slice(b";:");
+                        }
+                        stream.extend_from_slice(reference[order[k + j]].0.as_bytes());
+                        want.extend_from_slice(&reference[order[k + j]].1);
+                    }
+                    stream.push(b'\n');
+                    k += per;
+                }
+                let chunks = if chunked { super::c05::random_chunks(&mut rng, stream.len()) } else { vec![] };
+                let pend = if rng.chance(1, 3) { rng.next() | 1 } else { 0 };
+                par::case_begin(&stream, [shard as u64, 1, n as u64, 0]);
+                let out = crate::drive::drive_process_small::<RDev>(&crate::drive::ProcSpec { stream: &stream, n, chunks: &chunks, pend_seed: pend, fault_at: None });
+                par::case_end();
+                if out.crashed() {
+                    acc.res.skipped_crash += 1;
+                    continue;
+                }
+                acc.res.evaluations += 1;
+                *acc.by_type.entry(format!("end-to-end/{}", dname)).or_default() += 1;
+                let s = streams(&out.log);
+                if s.out != want || s.errs() > 0 {
+                    let at = s.out.iter().zip(&want).position(|(a, b)| a != b).unwrap_or(s.out.len().min(want.len()));
+                    violation(
+                        &mut acc,
+                        format!("process-responses-differ-from-run/{}", if s.errs() > 0 { "error-reported" } else if s.out.len() < want.len() { "response-missing-or-short" } else { "bytes-differ" }),
+                        format!("{} queries as {} messages through process::<{}> ({}): adapter received {} bytes, run wrote {} for the same queries; first difference at byte {}; errors: {}", order.len(), stream.iter().filter(|b| **b == b'\n').count(), n, dname, s.out.len(), want.len(), at, s.errs()),
+                        vec![("stream", J::s(esc(&stream))), ("stream_hex", J::s(hex(&stream))), ("n", n.into()), ("chunks", J::Arr(chunks.iter().take(64).map(|c| J::Int(*c as i64)).collect())), ("adapter_received", J::s(esc(&s.out))), ("run_wrote", J::s(esc(&want))), ("errors", J::strs(s.show().into_iter().take(6)))],
+                    );
+                }
+            }
         }
         // units that must not produce output
         for input in [&b"C:SET 5\n"[..], b"C:NOP\n", b"R:FAIL?\n", b"R:ARG? 999\n", b"R:ARG? 'x'\n", b"R:ARG?\n", b"R:NOPE?\n", b"C:SET? 1\n", b"R:U8\n", b"C:NOP;R:FAIL?;C:SET 1\n"] {
